@@ -30,7 +30,7 @@ EDITS = {
         ("macro-flushes-before-the-body", "macro/src/lib.rs", "                let ret = #method_invocation(#(#all_params_names),*);\n                #(#write_flushes)*\n                ret #maybe_into", "                #(#write_flushes)*\n                let ret = #method_invocation(#(#all_params_names),*);\n                ret #maybe_into"),
         ("cpp-grow-does-not-update-buf", "tool/templates/cpp/runtime.hpp.jinja", "  w->cap = string->length();\n  w->buf = &(*string)[0];", "  w->cap = string->length();"),
         ("cpp-flush-resizes-to-cap", "tool/templates/cpp/runtime.hpp.jinja", "  string->resize(w->len);", "  string->resize(w->cap);"),
-        ("c-header-swaps-len-and-cap", "tool/templates/c/runtime.h.jinja", "    size_t len;\n    size_t cap;", "    size_t cap;\n    size_t len;"),
+        ("c-header-swaps-len-and-cap", "tool/templates/c/capi.h.jinja", "    size_t len;\n    size_t cap;", "    size_t cap;\n    size_t len;"),
         ("partial-chunk-written-before-failed-grow", "runtime/src/write.rs", "            let success = (self.grow)(self, needed_len);\n            if !success {\n                self.grow_failed = true;\n                return Ok(());\n            }",
          "            let success = (self.grow)(self, needed_len);\n            if !success {\n                self.grow_failed = true;\n                let fits = self.cap - self.len;\n                unsafe { ptr::copy_nonoverlapping(s.as_bytes().as_ptr(), self.buf.add(self.len), fits) };\n                self.len = self.cap;\n                return Ok(());\n            }"),
     ],
